@@ -156,6 +156,7 @@ func (m *Message) MakeUnique() *Message {
 // Dup creates a "duplicate" message.  The message is made as a
 // deep copy, so the resulting message is safe to modify.
 func (m *Message) Dup() *Message {
+	verifMsgDup(m)
 	dup := NewMessage(len(m.Body))
 	dup.Body = append(dup.Body, m.Body...)
 	dup.Header = append(dup.Header, m.Header...)
